@@ -14,7 +14,7 @@ func codecPesView(h pes.PESHeader, in, orig []byte) Val {
 	if f, ok := h.(interface{ Format() string }); ok {
 		_ = f.Format()
 	}
-	data := h.Data()
+	data := keep("PESHeader.Data()", h.Data())
 	unchanged := int64(0)
 	if !bytes.Equal(in, orig) {
 		unchanged = 1
